@@ -50,6 +50,7 @@ import (
 	"github.com/megaease/easegress/pkg/util/signer"
 
 	"verif.local/kit"
+	yaml "gopkg.in/yaml.v2"
 )
 
 type x13Reporter struct{}
@@ -171,6 +172,12 @@ func (h *x13H) logPanic(sig, phase string) {
 func (h *x13H) report(phase, msg, site string) {
 	h.count("panics")
 	sig := fmt.Sprintf("C13/%s:panic:%s:%s", h.kind, site, x13Class(msg))
+	if strings.Contains(msg, "protocols.Request is nil") {
+		if y, ok := h.desc["yaml"].(string); ok && x13OrphanNamespace(y) {
+			// a flow node runs its filter in a namespace that holds no request
+			sig += ":flow-node-in-namespace-without-request"
+		}
+	}
 	if h.reqClass == "" {
 		if h.caseSigs != nil {
 			h.caseSigs[sig] = true
@@ -201,6 +208,40 @@ func (h *x13H) report(phase, msg, site string) {
 		d[k] = v
 	}
 	h.r.Violation(sig, d)
+}
+
+// x13OrphanNamespace: does the (Pipeline) spec have a flow node that is not a RequestBuilder
+// and names a namespace other than DEFAULT which no RequestBuilder node earlier in the flow
+// writes its request to?  Only used to name a panic signature, never for a verdict.
+func x13OrphanNamespace(y string) bool {
+	var doc struct {
+		Flow []struct {
+			Filter    string `yaml:"filter"`
+			Namespace string `yaml:"namespace"`
+		} `yaml:"flow"`
+		Filters []struct {
+			Name string `yaml:"name"`
+			Kind string `yaml:"kind"`
+		} `yaml:"filters"`
+	}
+	if yaml.Unmarshal([]byte(y), &doc) != nil {
+		return false
+	}
+	kind := map[string]string{}
+	for _, f := range doc.Filters {
+		kind[f.Name] = f.Kind
+	}
+	built := map[string]bool{"": true, "DEFAULT": true}
+	for _, n := range doc.Flow {
+		if kind[n.Filter] == "RequestBuilder" {
+			built[n.Namespace] = true
+			continue
+		}
+		if !built[n.Namespace] {
+			return true
+		}
+	}
+	return false
 }
 
 // ---------------------------------------------------------------- HTTP requests
